@@ -130,7 +130,7 @@ func (d *DefaultMetricLogWriter) writeItemsAndFlush(items []*base.MetricItem) er
 		bs := []byte(s + "\n")
 		_, err = d.metricOut.Write(bs)
 		if err != nil {
-			return nil
+			return err
 		}
 	}
 	return d.metricOut.Flush()
